@@ -1,5 +1,6 @@
 import TinysetModel.Proofs.Loops
 import TinysetModel.Proofs.Fns
+import TinysetModel.Proofs.Consts
 /-! `contains` of the model IS `contains` of the current source, arm by arm: `Generated/Loops.lean` holds the bodies
 of the `Dense`, `Heap` and `Big` arms of `SetU64::contains` / `SetU32::contains` translated on every run (the `Empty`
 and `Stack` arms are `false` and `Tiny::contains`, whose shape the translator pins); here: for every element of the
@@ -96,3 +97,58 @@ end SC
 
 #print axioms SC.contains_heap_64_eq
 #print axioms SC.contains_big_32_eq
+
+/-! ### the inline arm: `Tiny::contains` (a loop over the row of BITSPLITS, peeling one field per iteration) -/
+namespace SC
+open TinyC
+
+theorem mask_64_eq (b : Nat) : Gen.mask_64 b = 2 ^ b - 1 := by simp [Gen.mask_64, Nat.one_shiftLeft]
+theorem mask_32_eq (b : Nat) : Gen.mask_32 b = 2 ^ b - 1 := by simp [Gen.mask_32, Nat.one_shiftLeft]
+
+theorem tiny_loop_64 (sz : Nat) : ∀ (ws : List Nat) (bits e : Nat),
+    Gen.tiny_contains_64_loop1 sz ws bits e = TinyC.contains.loop (unpack ws bits) e := by
+  intro ws
+  induction ws with
+  | nil => intro bits e; rfl
+  | cons w ws ih =>
+    intro bits e
+    simp only [Gen.tiny_contains_64_loop1, unpack, TinyC.contains.loop, mask_64_eq, Nat.and_two_pow_sub_one_eq_mod,
+      Nat.shiftRight_eq_div_pow]
+    split
+    · rfl
+    · split
+      · rfl
+      · exact ih _ _
+
+theorem tiny_loop_32 (sz : Nat) : ∀ (ws : List Nat) (bits e : Nat),
+    Gen.tiny_contains_32_loop1 sz ws bits e = TinyC.contains.loop (unpack ws bits) e := by
+  intro ws
+  induction ws with
+  | nil => intro bits e; rfl
+  | cons w ws ih =>
+    intro bits e
+    simp only [Gen.tiny_contains_32_loop1, unpack, TinyC.contains.loop, mask_32_eq, Nat.and_two_pow_sub_one_eq_mod,
+      Nat.shiftRight_eq_div_pow]
+    split
+    · rfl
+    · split
+      · rfl
+      · exact ih _ _
+
+/-- `Tiny::contains` of `setu64.rs` is the model's inline `contains` -/
+theorem tiny_contains_64_eq (t : T) (e : Nat) (he : e < 2 ^ 64) :
+    Gen.tiny_contains_64 t.sz t.bits e = TinyC.contains codec64 t e := by
+  have hgt : ¬ e > 18446744073709551615 := by omega
+  simp only [Gen.tiny_contains_64, hgt, if_false, TinyC.contains, T.fields, widths, ← bitsplits64_match]
+  exact tiny_loop_64 t.sz _ t.bits e
+
+/-- `Tiny::contains` of `setu32.rs` -/
+theorem tiny_contains_32_eq (t : T) (e : Nat) (he : e < 2 ^ 32) :
+    Gen.tiny_contains_32 t.sz t.bits e = TinyC.contains codec32 t e := by
+  have hgt : ¬ e > 18446744073709551615 % 4294967296 := by omega
+  simp only [Gen.tiny_contains_32, hgt, if_false, TinyC.contains, T.fields, widths, ← bitsplits32_match]
+  exact tiny_loop_32 t.sz _ t.bits e
+
+end SC
+
+#print axioms SC.tiny_contains_64_eq
